@@ -72,24 +72,27 @@ Proof.
   rewrite Nat.eqb_eq. split; congruence.
 Qed.
 
-Lemma in_deletes : forall e n r, In (n, r) (deletes e) <-> In (EDelete n r) e.
+Lemma in_deletes : forall e n a t, In (n, a, t) (deletes e) <-> In (EDelete n a t) e.
 Proof.
-  intros e n r. unfold deletes. rewrite in_flat_map. split.
+  intros e n a t. unfold deletes. rewrite in_flat_map. split.
   - intros [x [Hx Hin]]. destruct x; simpl in Hin; try contradiction.
     destruct Hin as [E|[]]. inversion E; subst. assumption.
-  - intros H. exists (EDelete n r). split; [assumption | simpl; auto].
+  - intros H. exists (EDelete n a t). split; [assumption | simpl; auto].
 Qed.
 
-(* ---------------------------------------------------------------- the seven clauses *)
+(* ---------------------------------------------------------------- the clauses *)
 
 Lemma del_after_init_reflect : forall x, del_after_init_b x = true <-> del_after_init x.
 Proof.
   intros [[pre o] ob]. unfold del_after_init_b, del_after_init. rewrite forallb_forall. split.
-  - intros H n r Hin. specialize (H (n, r) Hin). apply existsb_exists in H. destruct H as [c [Hc Hb]].
+  - intros H n a t Hin. specialize (H (n, a, t) Hin). apply andb_true_iff in H. destruct H as [Ht H].
+    simpl in Ht. split; [assumption|].
+    apply existsb_exists in H. destruct H as [c [Hc Hb]].
     apply andb_true_iff in Hb. destruct Hb as [Hm Hf]. simpl in Hm.
     exists c. split; [assumption|]. split; [apply mem_In; assumption|].
     apply forallb_seq. assumption.
-  - intros H [n r] Hin. destruct (H n r Hin) as [c [Hc [Hm Hf]]].
+  - intros H [[n a] t] Hin. destruct (H n a t Hin) as [Ht [c [Hc [Hm Hf]]]].
+    apply andb_true_iff. split; [assumption|].
     apply existsb_exists. exists c. split; [assumption|].
     apply andb_true_iff. split; [apply mem_In; assumption | apply forallb_seq; assumption].
 Qed.
@@ -97,8 +100,8 @@ Qed.
 Lemma del_while_ready_reflect : forall x, del_while_ready_b x = true <-> del_while_ready x.
 Proof.
   intros [[pre o] ob]. unfold del_while_ready_b, del_while_ready. rewrite forallb_forall. split.
-  - intros H n r Hin. apply (H (n, r) Hin).
-  - intros H [n r] Hin. simpl. apply (H n r Hin).
+  - intros H n a t Hin. apply (H (n, a, t) Hin).
+  - intros H [[n a] t] Hin. simpl. apply (H n a t Hin).
 Qed.
 
 Lemma is_failed_eq : forall r, is_failed r = true <-> r = RFailed.
